@@ -305,7 +305,11 @@ def val_conf(ctx: Ctx) -> RuleResult:
             else:
                 raise Undecided(f"_conf_to_values: form of '{key}' not recognised: {s_}")
     for key in ("priority", "is_sequential"):
-        r.require(key in seen, f"_conf_to_values: '{key}' is not configurable any more")
+        r.ob(key in seen, {"configurable": key})
+        if key not in seen:
+            r.violate(f"ExecNode._conf_to_values: a configured '{key}' is not applied", f.loc(),
+                      f"config_from_dict/yaml/json document '{key}' as configurable per node; the value given in the configuration is "
+                      f"silently ignored and the node keeps its old {key}", None)
     return r
 
 
